@@ -264,7 +264,7 @@ class Model:
             helpers = {}
             frozen = set((known or {}).get(mi.name + ':' + ci.name, ()))
             for name, h in ci.methods.items():
-                if not name.startswith('_') or name.startswith('__') or h.vararg or h.kwarg or h.kind == 'property':
+                if not name.startswith('_') or name.startswith('__') or h.kwarg or h.kind == 'property':
                     continue
                 if any(dotted_name(d_) not in ('classmethod', 'staticmethod') for d_ in h.node.decorator_list):
                     continue        # a decorator (cache, wrapper) changes what a call means
@@ -324,7 +324,7 @@ class Model:
 
         def qualify(local, h, frozen):
             name = h.name
-            if not name.startswith('_') or name.startswith('__') or h.vararg or h.kwarg or h.generated:
+            if not name.startswith('_') or name.startswith('__') or h.kwarg or h.generated:
                 return
             if h.node.decorator_list:
                 return          # a decorator (cache, wrapper) changes what a call means
@@ -413,7 +413,10 @@ class Model:
             _canonicalise_copyto(tree)
             _canonicalise_ndindex(tree)
             _canonicalise_index_constants(tree)
+            _canonicalise_kwargs_dicts(tree)
+            _canonicalise_call_spellings(tree)
             if rel.endswith('tracer/tracer.py'):
+                _canonicalise_recorder_keywords(tree)
                 # the tracer rules read access paths (`F.setitem`, `cls.cgraph`, `F.args[0].x`); the kernels keep their locals (E1/E2 follow them)
                 _canonicalise_paths(tree)
             for _ in range(3):          # flags defined from flags (`both = x_is_utpm and y_is_utpm`)
@@ -1061,6 +1064,116 @@ def _canonicalise_index_constants(tree):
         T().visit(tree)
 
 
+def _canonicalise_recorder_keywords(tree):
+    """`X.pushforward(func, args, kw, node)` is `X.pushforward(func, args, Fkwargs=kw, Fout=node)`: positional arguments of the recording
+    classmethod beyond (func, Fargs) are written as the keywords its signature gives them (the rules read `Fout=` / `Fkwargs=`)"""
+    sig = None
+    for c in tree.body:
+        if isinstance(c, ast.ClassDef) and c.name == 'Function':
+            for f in c.body:
+                if isinstance(f, ast.FunctionDef) and f.name == 'pushforward':
+                    sig = [a.arg for a in f.args.args][1:]      # without cls
+    if not sig or len(sig) < 3:
+        return
+    for n in ast.walk(tree):
+        if isinstance(n, ast.Call) and isinstance(n.func, ast.Attribute) and n.func.attr == 'pushforward' and len(n.args) > 2 \
+                and len(n.args) <= len(sig) and not any(isinstance(a, ast.Starred) for a in n.args):
+            have = {k.arg for k in n.keywords}
+            extra = list(zip(sig[2:], n.args[2:]))
+            if any(name in have for name, _ in extra):
+                continue
+            n.keywords = [ast.keyword(arg=name, value=v) for name, v in extra] + n.keywords
+            n.args = n.args[:2]
+
+
+def _dict_items(e):
+    """[(key, value expr)] of a dict display / dict(k=v) call with constant string keys that are identifiers; None otherwise"""
+    if isinstance(e, ast.Dict) and e.keys and all(isinstance(k, ast.Constant) and isinstance(k.value, str) and k.value.isidentifier() for k in e.keys):
+        return [(k.value, v) for k, v in zip(e.keys, e.values)]
+    if isinstance(e, ast.Call) and isinstance(e.func, ast.Name) and e.func.id == 'dict' and not e.args and e.keywords and all(k.arg for k in e.keywords):
+        return [(k.arg, k.value) for k in e.keywords]
+    return None
+
+
+def _canonicalise_kwargs_dicts(tree):
+    """`f(a, **{'out': o, 'k': k})`, `f(a, **dict(out=o))` and `opts = {'out': o}; f(a, **opts)` read like `f(a, out=o, k=k)`: a dict
+    display with constant keys that only exists to be unpacked at a call is the keyword list written out.  The local form is
+    rewritten only when the dict is bound once, used for nothing but `**` unpacking, and nothing between the binding and the
+    call (same block) can change what its values read"""
+    class Inline(ast.NodeTransformer):
+        def visit_Call(self, c):
+            self.generic_visit(c)
+            new = []
+            for k in c.keywords:
+                items = _dict_items(k.value) if k.arg is None else None
+                if items is not None and not ({n for n, _ in items} & {q.arg for q in c.keywords if q.arg}):
+                    new.extend(ast.keyword(arg=n, value=v) for n, v in items)
+                else:
+                    new.append(k)
+            c.keywords = new
+            return c
+    Inline().visit(tree)
+    for f in ast.walk(tree):
+        if not isinstance(f, ast.FunctionDef):
+            continue
+        stores, loads = {}, {}
+        for n in ast.walk(f):
+            if isinstance(n, ast.Name):
+                (stores if isinstance(n.ctx, (ast.Store, ast.Del)) else loads).setdefault(n.id, []).append(n)
+        star = {}
+        for c in ast.walk(f):
+            if isinstance(c, ast.Call):
+                for k in c.keywords:
+                    if k.arg is None and isinstance(k.value, ast.Name):
+                        star.setdefault(k.value.id, []).append((c, k))
+
+        def blocks(node):
+            for attr in ('body', 'orelse', 'finalbody'):
+                b = getattr(node, attr, None)
+                if isinstance(b, list) and b and isinstance(b[0], ast.stmt):
+                    yield b
+                    for st in b:
+                        if not isinstance(st, (ast.FunctionDef, ast.ClassDef)):
+                            yield from blocks(st)
+            if isinstance(node, ast.Try):
+                for h in node.handlers:
+                    yield h.body
+                    for st in h.body:
+                        yield from blocks(st)
+        for body in list(blocks(f)):
+            for i, st in enumerate(list(body)):
+                if not (isinstance(st, ast.Assign) and len(st.targets) == 1 and isinstance(st.targets[0], ast.Name)):
+                    continue
+                name = st.targets[0].id
+                items = _dict_items(st.value)
+                if items is None or len(stores.get(name, ())) != 1 or name not in star or len(loads.get(name, ())) != len(star[name]):
+                    continue
+                reads = {x.id for _, v in items for x in ast.walk(v) if isinstance(x, ast.Name)}
+                # every unpacking call sits in a later statement of the same block, with nothing in between that stores what the values read
+                ok = True
+                sites = []
+                for c, k in star[name]:
+                    j = next((j for j in range(i + 1, len(body)) if any(x is c for x in ast.walk(body[j]))), None)
+                    if j is None:
+                        ok = False
+                        break
+                    between = body[i + 1:j]
+                    if any(isinstance(x, ast.Name) and isinstance(x.ctx, (ast.Store, ast.Del)) and x.id in reads for b in between for x in ast.walk(b)) \
+                            or any(isinstance(b, ast.Expr) for b in between):
+                        ok = False
+                        break
+                    if {n_ for n_, _ in items} & {q.arg for q in c.keywords if q.arg}:
+                        ok = False
+                        break
+                    sites.append((c, k))
+                if not ok:
+                    continue
+                for c, k in sites:
+                    pos = c.keywords.index(k)
+                    c.keywords[pos:pos + 1] = [ast.keyword(arg=n_, value=copy.deepcopy(v)) for n_, v in items]
+                body.remove(st)
+
+
 def _canonicalise_ndindex(tree):
     """`for d, p in numpy.ndindex(D, P): body` visits the same (d, p) in the same order as `for d in range(D): for p in range(P): body`
     (also itertools.product(range(D), range(P))); loops with break/else at that level are left alone"""
@@ -1599,9 +1712,12 @@ def _inline_calls(fi, clsname, helpers, used):
         recv = None
         if h.kind in ('method', 'classmethod') and params:
             recv, params = params[0], params[1:]
-        if any(isinstance(a, ast.Starred) for a in val.args) or any(k.arg is None for k in val.keywords) or len(val.args) > len(params):
+        if any(isinstance(a, ast.Starred) for a in val.args) or any(k.arg is None for k in val.keywords) or (len(val.args) > len(params) and not h.vararg):
             return None
         bound = dict(zip(params, val.args))
+        if h.vararg:
+            # `*shapes` receives the surplus positional arguments as a tuple
+            bound[h.vararg] = ast.Tuple(elts=list(val.args[len(params):]), ctx=ast.Load())
         for k in val.keywords:
             if k.arg not in params:
                 return None
@@ -1621,7 +1737,7 @@ def _inline_calls(fi, clsname, helpers, used):
         for p_, e in bound.items():
             if isinstance(e, ast.Name) and e.id == p_:
                 continue
-            simple = isinstance(e, ast.Constant) or dotted_name(e) is not None
+            simple = isinstance(e, ast.Constant) or dotted_name(e) is not None or _pure_display(e)
             # a substituted argument must not be re-evaluated after something it mentions was reassigned in the helper
             if simple and p_ not in assigned and not ({n.id for n in ast.walk(e) if isinstance(n, ast.Name)} & assigned):
                 mapping[p_] = e
@@ -1721,6 +1837,13 @@ def _inline_calls(fi, clsname, helpers, used):
             ex = expand(fake)
             if ex is None:
                 continue
+            # the helper returns one of its own locals: that local stands for the call (no second name for the same object)
+            if ex and isinstance(ex[-1], ast.Assign) and len(ex[-1].targets) == 1 and isinstance(ex[-1].targets[0], ast.Name) and ex[-1].targets[0].id == tmp \
+                    and isinstance(ex[-1].value, ast.Name) and ex[-1].value.id not in caller_names | set(fi.params) \
+                    and any(isinstance(x, ast.Name) and x.id == ex[-1].value.id and isinstance(x.ctx, ast.Store) for b_ in ex[:-1] for x in ast.walk(b_)):
+                tmp = ex[-1].value.id
+                caller_names.add(tmp)
+                ex = ex[:-1]
             pre.extend(ex)
             # replace the call node in place by the temporary
             for parent in ast.walk(st):
@@ -1775,9 +1898,12 @@ def _inline_calls(fi, clsname, helpers, used):
             recv = None
             if h.kind in ('method', 'classmethod') and params:
                 recv, params = params[0], params[1:]
-            if any(isinstance(a, ast.Starred) for a in c.args) or any(k.arg is None or k.arg not in params for k in c.keywords) or len(c.args) > len(params):
+            if any(isinstance(a, ast.Starred) for a in c.args) or any(k.arg is None or k.arg not in params for k in c.keywords) \
+                    or (len(c.args) > len(params) and not h.vararg):
                 return c
             bound = dict(zip(params, c.args))
+            if h.vararg:
+                bound[h.vararg] = ast.Tuple(elts=list(c.args[len(params):]), ctx=ast.Load())
             for k in c.keywords:
                 bound[k.arg] = k.value
             for p_ in params:
@@ -1808,7 +1934,103 @@ def _inline_calls(fi, clsname, helpers, used):
     node = _Expr().visit(node)
     if changed[0]:
         _beta_reduce(node)
+        _unroll_literal_comprehensions(node)
+        _propagate_class_alias(node)
+        _canonicalise_call_spellings(node)
     return node if changed[0] else None
+
+
+def _canonicalise_call_spellings(tree):
+    """pure respellings of a call: `f(*(a, b))` is `f(a, b)`; `getattr(X, 'name')` with a constant identifier is `X.name`;
+    `None or 'name'` is `'name'` (what a defaulted helper parameter leaves behind after expansion)"""
+    class T(ast.NodeTransformer):
+        def visit_BoolOp(self, n):
+            self.generic_visit(n)
+            if isinstance(n.op, ast.Or):
+                vals = list(n.values)
+                while len(vals) > 1 and isinstance(vals[0], ast.Constant) and (vals[0].value is None or vals[0].value is False or vals[0].value == '' or vals[0].value == 0):
+                    vals = vals[1:]
+                if isinstance(vals[0], ast.Constant) and isinstance(vals[0].value, str) and vals[0].value:
+                    vals = vals[:1]         # a non-empty string is true: the rest is never evaluated
+                if len(vals) == 1:
+                    return vals[0]
+                n.values = vals
+            return n
+
+        def visit_Call(self, c):
+            self.generic_visit(c)
+            if any(isinstance(a, ast.Starred) and isinstance(a.value, (ast.Tuple, ast.List)) and not any(isinstance(e, ast.Starred) for e in a.value.elts) for a in c.args):
+                new = []
+                for a in c.args:
+                    if isinstance(a, ast.Starred) and isinstance(a.value, (ast.Tuple, ast.List)) and not any(isinstance(e, ast.Starred) for e in a.value.elts):
+                        new.extend(a.value.elts)
+                    else:
+                        new.append(a)
+                c.args = new
+            if isinstance(c.func, ast.Name) and c.func.id == 'getattr' and len(c.args) == 2 and not c.keywords and isinstance(c.args[1], ast.Constant) \
+                    and isinstance(c.args[1].value, str) and c.args[1].value.isidentifier() and not c.args[1].value.startswith('__'):
+                return ast.copy_location(ast.Attribute(value=c.args[0], attr=c.args[1].value, ctx=ast.Load()), c)
+            return c
+    T().visit(tree)
+
+
+def _propagate_class_alias(fn):
+    """`cls_ = x.__class__` / `type(x)` bound once from a parameter that is never reassigned reads like the expression itself"""
+    a_ = fn.args
+    params = {x.arg for x in a_.posonlyargs + a_.args + a_.kwonlyargs}
+    stores = {}
+    for n in ast.walk(fn):
+        if isinstance(n, ast.Name) and isinstance(n.ctx, (ast.Store, ast.Del)):
+            stores[n.id] = stores.get(n.id, 0) + 1
+    alias = {}
+    for st in fn.body:
+        if isinstance(st, ast.Assign) and len(st.targets) == 1 and isinstance(st.targets[0], ast.Name) and stores.get(st.targets[0].id) == 1 \
+                and st.targets[0].id not in params:
+            v = st.value
+            base = v.value if isinstance(v, ast.Attribute) and v.attr == '__class__' else (
+                v.args[0] if isinstance(v, ast.Call) and isinstance(v.func, ast.Name) and v.func.id == 'type' and len(v.args) == 1 and not v.keywords else None)
+            if isinstance(base, ast.Name) and base.id in params and base.id not in stores:
+                alias[st.targets[0].id] = st
+    if not alias:
+        return
+    sub = _Subst({k: v.value for k, v in alias.items()})
+    keep = {id(v) for v in alias.values()}
+    fn.body = [sub.visit(b) for b in fn.body if id(b) not in keep]
+
+
+def _pure_display(e, depth=0):
+    """a tuple display of names / constants / such tuples: re-evaluating it has no effect and yields an equal value"""
+    if depth > 3 or not isinstance(e, ast.Tuple):
+        return False
+    return all(isinstance(x, ast.Constant) or isinstance(x, ast.Name) or _pure_display(x, depth + 1) for x in e.elts)
+
+
+def _unroll_literal_comprehensions(fn):
+    """`tuple(E(v) for v in (a, b))` / `[E(v) for v in (a, b)]` over a tuple display of at most 8 elements is `(E(a), E(b))` / `[E(a), E(b)]`"""
+    class T(ast.NodeTransformer):
+        def visit_Call(self, c):
+            self.generic_visit(c)
+            if isinstance(c.func, ast.Name) and c.func.id in ('tuple', 'list') and len(c.args) == 1 and not c.keywords \
+                    and isinstance(c.args[0], (ast.GeneratorExp, ast.ListComp)):
+                u = unroll(c.args[0])
+                if u is not None:
+                    return ast.copy_location(ast.Tuple(elts=u, ctx=ast.Load()) if c.func.id == 'tuple' else ast.List(elts=u, ctx=ast.Load()), c)
+            return c
+
+        def visit_ListComp(self, n):
+            self.generic_visit(n)
+            u = unroll(n)
+            return ast.copy_location(ast.List(elts=u, ctx=ast.Load()), n) if u is not None else n
+
+    def unroll(comp):
+        if len(comp.generators) != 1:
+            return None
+        g = comp.generators[0]
+        if g.ifs or g.is_async or not isinstance(g.target, ast.Name) or not isinstance(g.iter, (ast.Tuple, ast.List)) or len(g.iter.elts) > 8 \
+                or any(isinstance(e, ast.Starred) for e in g.iter.elts):
+            return None
+        return [_Subst({g.target.id: e}).visit(copy.deepcopy(comp.elt)) for e in g.iter.elts]
+    T().visit(fn)
 
 
 def _lambda_capture(body, bound, caller_names):
